@@ -223,6 +223,8 @@ def shape(t):
         return shape(t[2])
     if tag == "sel":
         return (count(t[2]),)
+    if tag == "axisidx":
+        return (count(t[1]),)
     if tag == "gather":
         si, sa = shape(t[2]), shape(t[1])
         if isinstance(si, tuple) and isinstance(sa, tuple):
@@ -315,7 +317,7 @@ def dtype(t):
         return t[2]
     if tag == "ge0":
         return "bool"
-    if tag in ("cumsum",):
+    if tag in ("cumsum", "axisidx"):
         return "int"
     if tag == "addc":
         return dtype(t[1])
@@ -1473,6 +1475,9 @@ class Interp:
                 return tab(a[1], ("col", a[2]))
             if i1 is None and isinstance(i2, SliceV) and i2.is_all:
                 return tab(a[1], ("row", a[2]))
+        if isinstance(idx, Tup) and idx and all(is_term(i) and i[0] == "axisidx" for i in idx) and len({i[1] for i in idx}) == 1 \
+                and [pconst(i[2]) for i in idx] == list(range(len(idx))) and rank(idx[0][1]) == len(idx):
+            return sel(a, idx[0][1])          # a[np.nonzero(m)] is a[m]
         if isinstance(idx, Tup):
             items = list(idx)
             # trailing full slices are no-ops
@@ -1898,6 +1903,12 @@ class Interp:
             return ("all_" if n == "all" else "any_", args[0])
         if n == "where" and len(args) == 3:
             return where_(args[0], args[1], args[2])
+        if n in ("nonzero", "where") and len(args) == 1 and not kw and is_term(args[0]) and dtype(args[0]) == "bool" and rank(args[0]) is not None:
+            # np.nonzero(m): one index array per axis, the positions of the True entries in row-major order
+            m = args[0]
+            if rank(m) == 1:
+                return Tup((sel(("iota", (length(m),)), m),))
+            return Tup(("axisidx", m, P(k_)) for k_ in range(rank(m)))
         if n == "flatnonzero" and len(args) == 1 and is_term(args[0]) and dtype(args[0]) == "bool":
             m = ravel(args[0])
             return sel(("iota", (length(m),)), m)
